@@ -398,10 +398,22 @@ Isotherm ==
                 \cup (IF Has(E, "equilibrium") THEN {"isotherm_equilibrium"} ELSE {}))
   /\ UNCHANGED refobs
 
+\* PoreProfile stores the grand potential and the interfacial tension when it is solved.  Whatever was solved before (another solver, a debug
+\* pre-relaxation, a bulk state replaced directly or through update_bulk), what is stored after a successful solve belongs to the profile it holds.
+Resolve ==
+  /\ Ev("Resolve")
+  /\ \A k \in 1..Len(E.after) :
+       LET a == E.after[k]  info == <<E.functional, E.history, k, a.step>> IN
+       /\ Chk("C18.stored_grand_potential_belongs_to_profile", <<info, a.omega_stored, a.omega_recomputed, l>>, a.omega_stored, a.omega_recomputed, "1e-9", FAbs(a.omega_recomputed), "0")
+       /\ Chk("C18.stored_grand_potential_belongs_to_profile", <<info, "interfacial tension", a.tension_stored, a.tension_recomputed, l>>, a.tension_stored, a.tension_recomputed,
+              "1e-9", FAdd(FAbs(a.omega_recomputed), FAbs(a.tension_recomputed)), "0")
+  /\ cnt' = BumpAll(cnt, {"resolve_histories"} \cup (IF E.ok THEN {"resolve_histories_completed"} ELSE {}))
+  /\ UNCHANGED refobs
+
 SkipEv == /\ Ev("Skip") /\ cnt' = Bump(cnt, "skipped") /\ UNCHANGED refobs
 
 Init == l = 1 /\ cnt = NoCount /\ refobs = <<>>
-Next == /\ (Uniform \/ Panic \/ Solve \/ SkipEv \/ Var1 \/ Var2 \/ Adjoint \/ BondVar \/ Response \/ Henry \/ SurfaceTension \/ SurfaceTensionCurve \/ Isotherm)
+Next == /\ (Uniform \/ Panic \/ Solve \/ SkipEv \/ Var1 \/ Var2 \/ Adjoint \/ BondVar \/ Response \/ Henry \/ SurfaceTension \/ SurfaceTensionCurve \/ Isotherm \/ Resolve)
         /\ (l' > NRec => PrintT("STATS " \o ToJson(cnt')))
 TraceSpec == Init /\ [][Next]_vars
 ================================================================================
